@@ -18,6 +18,8 @@ import (
 	"fmt"
 	"os"
 	"path/filepath"
+	"strings"
+	"sync"
 	"time"
 
 	"go.6river.tech/mmmbbb/services"
@@ -335,6 +337,37 @@ func runPusherService() (map[string]interface{}, error) {
 	if !waitReq(before+2, 5*time.Second) {
 		problems = append(problems, fmt.Sprintf("not-resumed: %d of 2 messages pushed within 5 s after the push configuration was restored", nreq()-before))
 	}
+	// a pusher that dies of a transient storage error is replaced by the service: one UPDATE of
+	// the deliveries table (the pusher leasing or settling a message) fails once; the message
+	// published meanwhile must still be pushed
+	before = nreq()
+	var fmu sync.Mutex
+	failed := false
+	SetDBHook(e.DSN, func(_ context.Context, kind CallKind, q string, after bool) error {
+		if after || kind != KExec || !strings.HasPrefix(strings.TrimSpace(q), "UPDATE `deliveries`") {
+			return nil
+		}
+		fmu.Lock()
+		defer fmu.Unlock()
+		if failed {
+			return nil
+		}
+		failed = true
+		return errInjected
+	})
+	if err := publish(1, "c"); err != nil {
+		SetDBHook(e.DSN, nil)
+		return nil, err
+	}
+	okc := waitReq(before+1, 10*time.Second)
+	SetDBHook(e.DSN, nil)
+	fmu.Lock()
+	didFail := failed
+	fmu.Unlock()
+	if didFail && !okc {
+		problems = append(problems, "pusher-not-restarted: after one failed UPDATE inside the pusher's transaction the message published meanwhile was not pushed within 10 s (the service did not replace the dead pusher)")
+	}
+	time.Sleep(300 * time.Millisecond)
 	// envelopes
 	final, _ := e.Dump(ctx)
 	ep.mu.Lock()
